@@ -264,7 +264,10 @@ def const_float(ts):
              'path:std::f64::INFINITY': float('inf'), 'path:core::f64::INFINITY': float('inf'),
              'path:std::f64::NEG_INFINITY': float('-inf'), 'path:core::f64::NEG_INFINITY': float('-inf'),
              'path:core::f64::<impl f64>::INFINITY': float('inf'),
-             'path:core::f64::<impl f64>::NEG_INFINITY': float('-inf')}
+             'path:core::f64::<impl f64>::NEG_INFINITY': float('-inf'),
+             'path:std::f64::MIN_POSITIVE': 2.2250738585072014e-308, 'path:core::f64::<impl f64>::MIN_POSITIVE': 2.2250738585072014e-308,
+             'path:std::f64::EPSILON': 2.220446049250313e-16, 'path:core::f64::<impl f64>::EPSILON': 2.220446049250313e-16,
+             'path:std::f64::MAX': 1.7976931348623157e308, 'path:core::f64::<impl f64>::MAX': 1.7976931348623157e308}
         return m.get(s)
     if n[0] == 'unop' and n[1] == 'Neg':
         v = const_float(n[2])
@@ -372,10 +375,21 @@ def run(ctx, tier):
                         continue
                     # locate the aggregate statement to split each field operand
                     agg_st = None
-                    if ssi < fn.nstmts(sb):
+                    # (the literal may have been built by an inlined private constructor and moved here: follow single moves)
+                    for _hop in range(8):
+                        if ssi >= fn.nstmts(sb):
+                            break
                         st2 = fn.blocks[sb]['stmts'][ssi]
                         if st2['k'] == 'assign' and st2['rv']['k'] == 'agg' and st2['rv'].get('adt') == adt:
                             agg_st = st2
+                            break
+                        src = (st2['rv']['op'].get('move') or st2['rv']['op'].get('copy')) if st2['k'] == 'assign' and st2['rv']['k'] == 'use' else None
+                        if src is None or src['p']:
+                            break
+                        evs, entry = fn.reaching(src['l'], (sb, ssi), (), True, whole_only=True)
+                        if entry or len(evs) != 1 or evs[0].kind != 'assign':
+                            break
+                        sb, ssi = evs[0].block, evs[0].idx
                     if agg_st is None:
                         r_st.violations.append(Violation('C12', 'C12.stored', b.path, 'agg', 'cannot locate the Self{..} literal (unrecognised shape)', loc=b.loc(0)))
                         continue
@@ -482,7 +496,262 @@ def run(ctx, tier):
                                                   'the stored angle is not confined to [-pi, pi] / may be NaN: %s' % {k[1]: str(v) for k, v in res.items()}, loc=b.loc(0)))
     if nr < 1:
         r_rng.violations.append(Violation('C12', 'C12.range', 'oxmpl', 'floor', 'SO2State::new not found'))
-    return [r_st, r_nan, r_cnt, r_prop, r_can, r_rng]
+    return [r_st, r_nan, r_cnt, r_prop, r_can, r_rng, _sample_width(ctx), _unit_normalise(ctx)]
+
+
+def pred_facts(fn, target_block, pred, want_true):
+    """term sets x for which `x.<pred>()` is known to be `want_true` on every path to target_block"""
+    out = []
+    te, fe, sbs = fn.bool_edges(lambda n: n[0] == 'call' and n[1].endswith('<impl f64>::' + pred))
+    for sb in sbs:
+        si = fn.switch_info(sb)
+        if si is None:
+            continue
+        for n in si[0]:
+            m = n
+            while m[0] == 'unop':
+                m = next(iter(m[2]))
+            if m[0] != 'call' or not m[2]:
+                continue
+            edges = [e for e in (te if want_true else fe) if e[0] == sb]
+            if edges and target_block not in fn.reachable(0, removed=frozenset(edges)):
+                out.append(m[2][0])
+    return out
+
+
+def _sample_width(ctx):
+    """C12.sample - rand's float ranges reject a width `hi - lo` that is not finite (`random_range(-1e308..1e308)` panics), so
+    a space the constructor returned can be sampled without panicking only if every range it hands to the generator has a
+    finite width: two constants, ends confined to [-pi, pi] by the constructor (interval spaces, C12.stored), or a test
+    `(hi - lo).is_finite()` on these very ends dominating the draw."""
+    import math
+    from .c11 import _range_sites, space_methods
+    r = RuleResult('C12.sample', 'every float range handed to random_range in sample_uniform has a finite width (rand panics on hi - lo = inf)')
+    n_sites = 0
+    for adt in space_adts(ctx):
+        fields = {f['name']: f['ty'] for f in ctx.core.adts[adt]['variants'][0]['fields']}
+        if 'bounds' not in fields:
+            continue
+        su = space_methods(ctx, adt).get('sample_uniform')
+        if su is None:
+            continue
+        fn = ctx.fn(su)
+        for o, (bi, _t, lo, hi, _inc) in enumerate(_range_sites(ctx, su)):
+            n_sites += 1
+            if lo is None or hi is None:
+                continue        # reported by C11.range (unrecognised shape)
+            clo, chi = const_float(lo), const_float(hi)
+            if clo is not None and chi is not None:
+                ok = math.isfinite(chi - clo)
+                r.inst('%s: constant range %s..%s' % (su.path, clo, chi), ok=ok, nontrivial=False)
+                why = 'the constant range has no finite width'
+            elif fields['bounds'] == '(f64, f64)':
+                ok = True
+                r.inst('%s: ends are the stored interval, confined to [-pi, pi] by the constructor (C12.stored)' % su.path, ok=True, site=su.loc(bi))
+            else:
+                fin = pred_facts(fn, bi, 'is_finite', True)
+                ok = False
+                for x in fin:
+                    x = strip_clone(x)
+                    if len(x) == 1:
+                        n = next(iter(x))
+                        if n[0] == 'binop' and n[1] == 'Sub' and same(n[2], hi) and same(n[3], lo):
+                            ok = True
+                r.inst('%s: the draw at %s is dominated by (hi - lo).is_finite()' % (su.path, su.loc(bi)), ok=ok, site=su.loc(bi))
+                why = ('random_range(%s..%s): both ends are tested to be finite, but not their difference: finite bounds whose width overflows '
+                       '(-1e308..1e308) are accepted by the constructor and make the generator panic' % (fmt_terms(lo)[:50], fmt_terms(hi)[:50]))
+            if not ok:
+                r.violations.append(Violation('C12', 'C12.sample', su.path, 'width', why, loc=su.loc(bi), ordinal=o))
+    if n_sites < 3:
+        r.violations.append(Violation('C12', 'C12.sample', 'oxmpl', 'floor', 'only %d random_range draws found in sample_uniform of the primitive spaces (floor 3)' % n_sites))
+    return r
+
+
+F64 = '<impl f64>::'
+
+
+def _sum_of_squares(ts, fields):
+    """ts is a sum whose addends are the squares (powi(c, 2) or c * c) of `self.<f>` for exactly the given fields, once each"""
+    todo = [ts]
+    seen = []
+    while todo:
+        x = strip_clone(todo.pop())
+        if len(x) != 1:
+            return False
+        n = next(iter(x))
+        if n[0] == 'binop' and n[1] == 'Add':
+            todo += [n[2], n[3]]
+            continue
+        base = None
+        if n[0] == 'call' and n[1].endswith(F64 + 'powi') and len(n[2]) == 2 and n[2][1] == T(('const', '2')):
+            base = strip_clone(n[2][0])
+        elif n[0] == 'binop' and n[1] == 'Mul' and strip_clone(n[2]) == strip_clone(n[3]):
+            base = strip_clone(n[2])
+        if base is None or len(base) != 1:
+            return False
+        m = next(iter(base))
+        if not (m[0] == 'field' and m[1] and all(q[0] == 'param' and q[1] == 1 for q in m[1])):
+            return False
+        seen.append(m[2])
+    return sorted(seen) == sorted(fields)
+
+
+def _is_norm(ctx, dn, flds, depth=0):
+    """dn is sqrt(sum of the four squares of self), directly or as the result of a helper `fn norm(&self) -> f64` of the crate"""
+    if dn[0] != 'call' or not dn[2]:
+        return False
+    if dn[1].endswith(F64 + 'sqrt'):
+        return _sum_of_squares(dn[2][0], flds)
+    cb = ctx.core.body(dn[1])
+    if cb is None or depth >= 2 or cb.arg_count != 1 or len(dn[2]) != 1:
+        return False
+    a = strip_clone(dn[2][0])
+    if not (a and all(q[0] == 'param' and q[1] == 1 for q in a)):
+        return False
+    cfn = ctx.fn(cb)
+    rt = set()
+    for rb in cfn.return_blocks():
+        rt |= set(strip_clone(cfn.local_terms(0, (rb, cfn.nstmts(rb)))))
+    return len(rt) == 1 and _is_norm(ctx, next(iter(rt)), flds, depth + 1)
+
+
+def _unit_normalise(ctx):
+    """C12.unit - quaternion normalisation yields a unit quaternion parallel to the input or the zero-magnitude error:
+    (a) every quaternion literal built in `normalise` has the components `self.c / D` for ONE divisor D (parallel);
+    (b) a literal that is returned has D = sqrt(x^2 + y^2 + z^2 + w^2) over exactly the four components (unit), and is built
+        only where D >= K for a constant K whose square is far above the subnormal range (below it the squares lose their
+        relative precision and the quotient is not a unit vector), and where D is known not to be +inf (squares of finite
+        components overflow from 1.3e154: x / inf = 0 gives the zero quaternion as an `Ok`);
+    (c) a literal with another divisor (a rescaled copy) is only handed to `normalise` again.
+    Decided for finite inputs: a NaN component makes every comparison false and is outside the clause."""
+    r = RuleResult('C12.unit', 'SO3State::normalise returns self / |self| with |self| the root of the four squares, only for |self| in [K, inf)')
+    n_fn = 0
+    for b in sorted(ctx.lib_bodies(), key=lambda x: x.path):
+        if not (b.kind == 'AssocFn' and b.impl_trait is None and b.name == 'normalise' and (b.j.get('impl_adt') or '').endswith('so3_state::SO3State')):
+            continue
+        n_fn += 1
+        fn = ctx.fn(b)
+        adt = b.j.get('impl_adt')
+        flds = [f['name'] for f in ctx.core.adts[adt]['variants'][0]['fields']]
+        probs = []
+        result_lits, rescaled = set(), set()
+        built = []          # (block, stmt index | None, identity node, {field: terms})
+        for bi, blk in enumerate(fn.blocks):
+            if blk['cleanup'] or bi not in fn.reachable(0):
+                continue
+            for si, st in enumerate(blk['stmts']):
+                if not (st['k'] == 'assign' and st['rv']['k'] == 'agg' and st['rv'].get('adt') == adt):
+                    continue
+                ts = fn.rvalue_terms(st['rv'], (bi, si))
+                if len(ts) != 1:
+                    probs.append(('shape', 'quaternion literal at %s has several forms (unrecognised shape)' % fn.loc(bi, si)))
+                    continue
+                built.append((bi, si, next(iter(ts)), dict(next(iter(ts))[3])))
+            t = blk['term']
+            if t['k'] == 'call':
+                # `Self::new(a, b, c, d)` where new is the plain constructor Self { x: a, y: b, z: c, w: d }
+                cb = ctx.core.body(t['func'].get('path') or '')
+                if cb is not None and cb.j.get('impl_adt') == adt and cb.name == 'new' and cb.impl_trait is None:
+                    cfn = ctx.fn(cb)
+                    rt = set()
+                    for rb in cfn.return_blocks():
+                        rt |= set(cfn.local_terms(0, (rb, cfn.nstmts(rb))))
+                    if len(rt) == 1 and next(iter(rt))[0] == 'agg' and next(iter(rt))[1] == adt:
+                        comps = {}
+                        for (f, v) in next(iter(rt))[3]:
+                            if len(v) == 1 and next(iter(v))[0] == 'param' and 1 <= next(iter(v))[1] <= len(t['args']):
+                                comps[f] = fn.arg_terms(t, next(iter(v))[1] - 1, bi)
+                        ct = fn.call_terms(t, bi)
+                        if len(comps) == len(flds) and len(ct) == 1:
+                            built.append((bi, None, next(iter(ct)), comps))
+        if True:
+            for (bi, si, lit, comps) in built:
+                D = None
+                par = True
+                for f in flds:
+                    c = strip_clone(comps.get(f, frozenset()))
+                    n = next(iter(c)) if len(c) == 1 else None
+                    if not (n is not None and n[0] == 'binop' and n[1] == 'Div' and len(strip_clone(n[2])) == 1 and
+                            next(iter(strip_clone(n[2])))[0] == 'field' and next(iter(strip_clone(n[2])))[2] == f and
+                            all(q[0] == 'param' and q[1] == 1 for q in next(iter(strip_clone(n[2])))[1])):
+                        par = False
+                        break
+                    if D is None:
+                        D = strip_clone(n[3])
+                    elif strip_clone(n[3]) != D:
+                        par = False
+                        break
+                r.inst('%s: literal at %s has the components self.c / D for one divisor D' % (b.path, fn.loc(bi, si)), ok=par, site=fn.loc(bi, si))
+                if not par:
+                    probs.append(('parallel', 'the quaternion built at %s does not have the components self.x / D, self.y / D, self.z / D, self.w / D '
+                                              'for one common divisor D: it is not parallel to the input' % fn.loc(bi, si)))
+                    continue
+                dn = next(iter(D)) if len(D) == 1 else None
+                is_norm = dn is not None and _is_norm(ctx, dn, flds)
+                if not is_norm:
+                    rescaled.add(lit)
+                    continue
+                result_lits.add(lit)
+                # guards where the result literal is built
+                facts = cmp_facts(fn, bi)
+                lower = None
+                upper_ok = False
+                for (a, c, rel, _blk) in facts:
+                    for (x, y, rr) in ((a, c, rel), (c, a, {FLIP[q] for q in rel})):
+                        if strip_clone(x) != D:
+                            continue
+                        k = const_float(y)
+                        if k is None:
+                            continue
+                        if rr - {'un'} <= {'gt', 'eq'} and (lower is None or k > lower):
+                            lower = k
+                        if rr <= {'lt', 'eq'} and k < float('inf'):
+                            upper_ok = True
+                if any(strip_clone(x) == D for x in pred_facts(fn, bi, 'is_finite', True)) or \
+                        any(strip_clone(x) == D for x in pred_facts(fn, bi, 'is_infinite', False)):
+                    upper_ok = True
+                MINK = (4.0 * 2.0 ** -1022 * 2.0 ** 40) ** 0.5
+                ok_lo = lower is not None and lower >= MINK
+                r.inst('%s: the result is built only for |self| >= %s (needs >= %.3g)' % (b.path, lower, MINK), ok=ok_lo, site=fn.loc(bi, si))
+                if not ok_lo:
+                    probs.append(('cutoff', 'the unit quaternion is built for magnitudes down to %s: below about %.1e the squares of all four components '
+                                            'are subnormal (or zero), their sum has lost its relative precision and self / |self| is not a unit '
+                                            'quaternion (nor, when one square underflows and another does not, parallel to the input)' % (
+                                                'any non-zero value' if lower is None else repr(lower), MINK)))
+                r.inst('%s: the result is built only for a finite |self|' % b.path, ok=upper_ok, site=fn.loc(bi, si))
+                if not upper_ok:
+                    probs.append(('overflow', 'the unit quaternion is built although |self| can be +inf: the squares of finite components overflow from '
+                                              'about 1.3e154, and every component / inf is 0 - normalise answers Ok with the zero quaternion'))
+        # what is returned
+        ret = set()
+        for rb in fn.return_blocks():
+            ret |= set(fn.local_terms(0, (rb, fn.nstmts(rb))))
+        for n in ret:
+            if n[0] == 'agg' and n[1] == 'std::result::Result' and n[2] == 'Err':
+                continue
+            if n[0] == 'agg' and n[1] == 'std::result::Result' and n[2] == 'Ok':
+                pay = strip_clone(dict(n[3]).get('0', frozenset()))
+                if pay and pay <= result_lits:
+                    continue
+                probs.append(('returned', 'an Ok value is returned that is not self / sqrt(x^2 + y^2 + z^2 + w^2): %s' % fmt_terms(pay)[:80]))
+                continue
+            if n[0] == 'call' and n[1] == b.path and n[2]:
+                arg = strip_clone(n[2][0])
+                if arg and arg <= rescaled:
+                    continue
+            if n[0] in ('out',):
+                continue
+            probs.append(('returned', 'unrecognised return value %s (unrecognised shape)' % fmt_terms(T(n))[:80]))
+        if not result_lits:
+            probs.append(('shape', 'no literal self / sqrt(sum of the four squares) is built (unrecognised shape)'))
+        seen_k = {}
+        for (k, why) in probs:
+            o = seen_k.get(k, 0)
+            seen_k[k] = o + 1
+            r.violations.append(Violation('C12', 'C12.unit', b.path, k, why, loc=b.loc(0), ordinal=o))
+    if n_fn < 1:
+        r.violations.append(Violation('C12', 'C12.unit', 'oxmpl', 'floor', 'SO3State::normalise not found (floor 1)'))
+    return r
 
 
 def _check_interval(b, fn, facts, lo, hi, fname, r_st, r_nan, oi):
